@@ -114,8 +114,9 @@ func (c *Client) UploadShard(shardID, newShardID uint64, destinationDatabase, re
 		return err
 	}
 
+	// The archive is terminated only when every file was sent: the
+	// end-of-archive marker tells the server that nothing is missing.
 	tw := tar.NewWriter(conn)
-	defer tw.Close()
 
 	for {
 		hdr, err := tr.Next()
@@ -152,7 +153,7 @@ func (c *Client) UploadShard(shardID, newShardID uint64, destinationDatabase, re
 		}
 	}
 
-	return nil
+	return tw.Close()
 }
 
 // MetastoreBackup returns a snapshot of the meta store.
